@@ -153,7 +153,7 @@ theorem append_facts {T : Tables} {m : MMap} {kv : Str × Str}
 /-- a value listed for a metric of the table makes a legal pair (tokens are ':'-free) -/
 theorem legalPair_of_mem {T : Tables} {g : G} (hp : C04.Pinned T g) {k v : Str} {ws : List Str}
     (hk : k ∈ T.abbrs) (hl : lookup k T.legal = some ws) (hv : v ∈ ws) : LegalPair T (k, v) := by
-  have hk' : k ∈ keys g.vocab := by rw [← C04.pinned_abbrs hp.pinned]; exact hk
+  have hk' : k ∈ keys g.vocab := (C04.pinned_abbrs hp.pinned k).1 hk
   obtain ⟨vs, hvs⟩ := Option.isSome_iff_exists.1 ((lookup_isSome_iff_mem_keys _ _).2 hk')
   obtain ⟨ws', hws', hiff⟩ := C04.pinned_legal hp.pinned hvs
   rw [hl] at hws'
@@ -292,12 +292,8 @@ theorem join3 (sep : Char) (a b c : List Str) (ha : a ≠ []) (hb : b ≠ []) (h
   rw [join_append sep (a ++ b) c (by simp [ha]) hc, join_append sep a b ha hb]
 
 /-- the table has distinct metrics -/
-theorem abbrs_nodup {T : Tables} {g : G} (hp : C04.Pinned T g) : T.abbrs.Nodup := by
-  rw [C04.pinned_abbrs hp.pinned]
-  have := hp.clean
-  unfold C04.tokensClean at this
-  rw [Bool.and_eq_true] at this
-  exact of_decide_eq_true this.2
+theorem abbrs_nodup {T : Tables} {g : G} (hp : C04.Pinned T g) : T.abbrs.Nodup :=
+  C04.pinned_nodup hp.pinned
 
 /-- listing every metric of the table with a legal value gives a map that parses back -/
 theorem tabulate_facts {T : Tables} {g : G} (hp : C04.Pinned T g) (f : Str → Str) (hne : T.abbrs ≠ [])
